@@ -167,7 +167,7 @@ const HDR: &str = "let { append } = import! std.string\nlet { ref } = import! st
 
 fn fixed_kinds() -> Vec<Kind> {
     let k = |name: &str, body: &str| Kind { name: name.to_string(), src: format!("{}{}", HDR, body) };
-    vec![
+    let mut v = vec![
         k("int", "42"),
         k("float", "1.5"),
         k("string-fresh", "append \"ab\" \"cd\""),
@@ -212,7 +212,19 @@ fn fixed_kinds() -> Vec<Kind> {
             "let s = append \"e\" \"v\"\nlet r = { s, k = 1 }\n{ r, arr = [r, r], f = \\x -> keep r x, p = keep s, strs = [s, \"lit\"], nest = [[1b], [2b]], fl = 2.5 }",
         ),
         k("channel-record", "let { channel } = import! std.channel\nchannel 0"),
-    ]
+    ];
+    // hand-picked regression inputs: corpus/C13/*.glu, one value expression each (HDR is prepended)
+    let dir = std::path::Path::new(env!("CARGO_MANIFEST_DIR")).join("../corpus/C13");
+    let mut extra: Vec<std::path::PathBuf> = std::fs::read_dir(&dir).map(|d| d.flatten().map(|e| e.path()).filter(|p| p.extension().map(|x| x == "glu").unwrap_or(false)).collect()).unwrap_or_default();
+    extra.sort();
+    for p in extra.into_iter().rev() {
+        if let Ok(text) = std::fs::read_to_string(&p) {
+            let body: String = text.lines().filter(|l| !l.trim_start().starts_with("//")).collect::<Vec<_>>().join("\n");
+            let name = format!("corpus-{}", p.file_stem().unwrap().to_string_lossy());
+            v.insert(0, Kind { name, src: format!("{}{}", HDR, body.trim_end()) });
+        }
+    }
+    v
 }
 
 // A small typed generator of value expressions with let-bound sharing.
@@ -821,7 +833,7 @@ fn run_case(f: &mut Forest, c: &Case, it: &mut Intern, out: &mut Out, full_walk:
     let (sh_src, sh_dst) = (shape(&g_src), shape(&g_dst));
     if sh_src != sh_dst {
         out.violation(
-            &format!("c13:shape:{}:{}", c.route.family(), c.kind.name.split('-').next().unwrap_or("?")),
+            &format!("c13:shape:{}:{}", c.route.family(), c.kind.name.trim_start_matches("corpus-").split('-').next().unwrap_or("?")),
             "the received value is not structurally equal (shape, sharing, cycles) to the sent one",
             &case,
             &sh_src,
@@ -1248,7 +1260,8 @@ fn replay(path: &str) {
     println!("case: {}", case);
     if case["scenario"].is_string() || case["s"].as_str() == Some("fresh-vm") {
         println!("(scenario: re-running all scenarios)");
-        let dir = std::env::temp_dir();
+        let dir = std::path::Path::new(env!("CARGO_MANIFEST_DIR")).join("../.cache/replay-c13");
+    std::fs::create_dir_all(&dir).ok();
         let args = Args { tier: "quick".into(), seed: 1, out: dir, replay: None, extra: BTreeMap::new(), rest: vec![] };
         let mut out = Out {
             model_in: open(&args, "c13-replay-model_in.txt", false),
@@ -1285,7 +1298,8 @@ fn replay(path: &str) {
         Route::Ref(f.th(r.strip_prefix("ref:").expect("route")))
     };
     let c = Case { kind, s, t, route, order: case["order"].as_u64().unwrap_or(0) as u8 };
-    let dir = std::env::temp_dir();
+    let dir = std::path::Path::new(env!("CARGO_MANIFEST_DIR")).join("../.cache/replay-c13");
+    std::fs::create_dir_all(&dir).ok();
     let args = Args { tier: "quick".into(), seed: 1, out: dir, replay: None, extra: BTreeMap::new(), rest: vec![] };
     let mut out = Out {
         model_in: open(&args, "c13-replay-model_in.txt", false),
